@@ -122,7 +122,7 @@ def check(tier, seed):
     run = Run("C17", tier, seed)
     n = nontrivial = 0
 
-    def consume(schema, query, events, delays, sources, runtime_factory=None, variables=None, reiterable=False, fail=False, instrumentation=None):
+    def consume(schema, query, events, delays, sources, runtime_factory=None, variables=None, reiterable=False, fail=False, instrumentation=None, style="for"):
         loop = asyncio.new_event_loop()
         try:
             asyncio.set_event_loop(loop)
@@ -132,6 +132,17 @@ def check(tier, seed):
                 stream = await subscribe(schema, parse(query), variables=variables, context_value={"events": events, "delays": delays, "reiterable": reiterable, "fail": fail}, runtime=rt,
                                          instrumentation=instrumentation, initial_value={"ping": person(99), "tick": 99})          # (the root value of the subscription resolver; no event is it)
                 out = []
+                if style == "resume":
+                    # the consumer takes one result, leaves its loop, and comes back for the rest: the response stream is ONE pass over the source events
+                    async for res in stream:
+                        out.append(res)
+                        break
+                elif style == "anext":
+                    # an async iterator may be advanced without asking it for an iterator first
+                    try:
+                        out.append(await stream.__anext__())
+                    except StopAsyncIteration:
+                        return out
                 async for res in stream:
                     out.append(res)
                     await asyncio.sleep(0)
@@ -153,9 +164,11 @@ def check(tier, seed):
                     sources = []
                     schema = make_schema(sources, async_resolver)
                     n += 1
-                    w = {"query": query, "events": list(combo), "async_subscription_resolver": async_resolver, "delays": delays, "source_is_its_own_iterator": not reiterable}
+                    style = ("for", "resume", "anext")[n % 3]
+                    w = {"query": query, "events": list(combo), "async_subscription_resolver": async_resolver, "delays": delays, "source_is_its_own_iterator": not reiterable,
+                         "consumer": {"for": "one `async for`", "resume": "`async for`, break after one result, `async for` again", "anext": "first result by __anext__(), then `async for`"}[style]}
                     try:
-                        results = consume(schema, query, events, delays, sources, reiterable=reiterable)
+                        results = consume(schema, query, events, delays, sources, reiterable=reiterable, style=style)
                     except Exception as e:
                         run.violation("subscribe:stream-completes", "consuming the response stream raised %r" % (e,), dict(w, exc=type(e).__name__), True)
                         continue
